@@ -152,7 +152,7 @@ partial def exprDump : Expr → String
   | .logical a op b => s!"(log {op.idx} {exprDump a} {exprDump b})"
   | .call c l args => s!"(call {exprDump c} {l} {exprsDump args})"
   | .arrayLit es => s!"(arr {exprsDump es})"
-  | .objectLit ps =>
+  | .objectLit ps _ =>
     let parts := (effectiveProps ps).map fun (k, e) => s!"({hx k} {exprDump e})"
     s!"(obj [{" ".intercalate parts}])"
   | .arrayAccess a i l => s!"(idx {exprDump a} {exprDump i} {l})"
